@@ -630,29 +630,28 @@ class Twin:
         self.loss_and_fix()
 
     def directed_less_room(self):
-        """every configured split is in use; the file of a split that is followed by used ones is lost and its disk is replaced by
-        a smaller one (less room than its recorded size): fix cannot bring the split back to its recorded size and must stop
-        without touching the other splits (the map is fixed by the recorded sizes); with the room back, fix restores everything"""
-        n = next(n for n in range(2 * BS + 3, 40 * BS) if all(3 * BS <= plimit(n, s, 0) < 6 * BS for s in range(3)))
+        """three of four configured splits are in use; the file of a split that is followed by used ones is lost and its disk is
+        replaced by a smaller one (one block less room than its recorded size) while the later splits could take that block: fix
+        cannot bring the split back to its recorded size and must stop without touching the other splits (the map is fixed by the
+        recorded sizes, the stripes behind must not move); with the room back, fix restores everything"""
+        n = next(n for n in range(2 * BS + 3, 40 * BS) if all(3 * BS <= plimit(n, s, 0) < 4 * BS for s in range(4)))
         self.n = n
-        need = sum(x // BS for x in self.lims(0)[:2]) + 2
-        vals = [self.val() for _ in range(need)]
-        self.write(0, "A", vals[:need // 2]); self.write(1, "B", vals[need // 2:])
-        self.write(0, "C", [self.val() for _ in range(need - need // 2)])
-        self.sync("first sync, limits %r: all three splits are in use" % self.lims(0))
+        vals = [self.val() for _ in range(16)]
+        self.write(0, "A", vals[:8]); self.write(1, "B", vals[8:])
+        self.sync("first sync, limits %r: three splits are in use" % self.lims(0))
         self.check("after the first sync")
         which = self.rng.randrange(2)
-        keep = {s: open(self.A.pfile(0, s), "rb").read() for s in range(3) if s != which}
+        keep = {s: open(self.A.pfile(0, s), "rb").read() for s in range(4) if s != which and os.path.exists(self.A.pfile(0, s))}
         os.remove(self.A.pfile(0, which))
         self.const = False
-        n2 = next(m for m in range(BS + 1, n) if BS <= plimit(m, which, 0) < self.lims(0)[which] - BS)
+        n2 = next(m for m in range(BS + 1, n) if 2 * BS <= plimit(m, which, 0) < 3 * BS)
         ra = self.runA("fix", n=n2)
         self.steps.append("split %d of level 0 lost, its disk now has room for %d bytes only (limits %r); fix -> rc %d"
                           % (which, plimit(n2, which, 0), self.lims(0, n2), ra.rc))
         if ra.rc == 0:
             self.problem("fix-accepted-a-short-fixed-split", "fix ended with status 0 although split %d could not be restored to its recorded size" % which)
         for s, b in keep.items():
-            if open(self.A.pfile(0, s), "rb").read() != b:
+            if open(self.A.pfile(0, s), "rb").read()[:len(b)] != b:
                 self.problem("fix-changed-other-splits", "split %d was rewritten by a fix that could not restore split %d" % (s, which))
         # the room is back: everything is restored
         self.T.lose_parity(0)
@@ -691,7 +690,7 @@ def _scenario(job):
             except Diverged:
                 pass
         elif kind == "less-room":
-            t = Twin(seed, 2, 1, [3], 0, data_seed)
+            t = Twin(seed, 2, 1, [4], 0, data_seed)
             try:
                 t.directed_less_room()
             except Diverged:
